@@ -1,6 +1,51 @@
 package subprocess
 
-// VerifWaitErr is what the stubbed (*Cmd).Wait returns for scripted commands.
-var VerifWaitErr error
+import (
+	verif_io "io"
+	verif_strings "strings"
+)
 
-func verifWaitStub(c *Cmd) error { return VerifWaitErr }
+// scripted subprocesses: the stubbed (*Cmd) methods serve VerifStdout and
+// return VerifWaitErr from Wait.
+var (
+	VerifWaitErr error
+	VerifStdout  string
+)
+
+// a scripted command has no exec.Cmd; real commands (package initialisers
+// run git) keep their behaviour
+func verifWaitStub(c *Cmd) error {
+	if c.Cmd == nil {
+		return VerifWaitErr
+	}
+	for _, pipe := range c.pipes {
+		pipe.Close()
+	}
+	return c.Cmd.Wait()
+}
+
+func verifStartStub(c *Cmd) error {
+	if c.Cmd == nil {
+		return nil
+	}
+	c.trace()
+	return c.Cmd.Start()
+}
+
+func verifStdoutPipeStub(c *Cmd) (verif_io.ReadCloser, error) {
+	if c.Cmd == nil {
+		return verif_io.NopCloser(verif_strings.NewReader(VerifStdout)), nil
+	}
+	stdout, err := c.Cmd.StdoutPipe()
+	c.pipes = append(c.pipes, stdout)
+	return stdout, err
+}
+
+func verifStderrPipeStub(c *Cmd) (verif_io.ReadCloser, error) {
+	if c.Cmd == nil {
+		return verif_io.NopCloser(verif_strings.NewReader("")), nil
+	}
+	stderr, err := c.Cmd.StderrPipe()
+	c.pipes = append(c.pipes, stderr)
+	return stderr, err
+}
